@@ -13,6 +13,11 @@ B  spec -> code: TLC enumerates the small-schema family with Match for every nam
 C  code -> spec: seeded generator of well-formed schemas; real results for all names up to length L over
    an alphabet with every literal + fresh components; TLC judges the three-way equality
    Lvs!Match = LvsTree!TreeMatch(compiled model) = recorded (direct and reloaded).
+Histories (B and C): the checkers are long-lived objects.  Before the enumerations that are compared, the same
+   objects serve enumerations consumed in other ways (cut short after k results and closed / dropped / kept
+   suspended, aborted by a user function that raises, suspended while other enumerations run), and further
+   checkers over the same model are constructed meanwhile whose function dictionaries give the schema's
+   function identifiers other meanings (Lvs!Retab).  Every enumeration is judged (LvsJudge!JEvent).
 """
 import json, os
 
@@ -128,6 +133,9 @@ def model_from_tree(t):
     return m
 
 
+TREE_TAB = {'$eq': '$ne'}          # = LvsEnum!EnumTab
+
+
 def ctxdict(v):
     """a TLA function tag -> component as printed by TLC (a function on 1..n prints as a tuple)."""
     if isinstance(v, dict):
@@ -135,13 +143,103 @@ def ctxdict(v):
     return {i + 1: x for i, x in enumerate(v)}
 
 
-def node_matches(ck, name):
+def decode_nodes(raw):
     """Checker.match on a tree without rule names: results are '#_<node>' -> (node, ctx by tag)."""
     out = set()
-    for rules, cx in ck.match(K.real_name(name)):
+    for rules, cx in raw:
         for rn in rules:
             out.add((int(rn[2:]), frozenset((int(k), K.comp_str(v)) for k, v in cx.items())))
-    return frozenset(out)
+    return 'ok', frozenset(out)
+
+
+# ------------------------------------------------------------------ histories (operations for lvskit.History)
+
+def take_end(i):
+    return ('close', 'drop', 'keep')[i % 3]
+
+
+def ops_first_partial(hits, ncks):
+    """stage B: every name that has a match is first asked for by a caller that stops after one result, on every
+    checker (the ways of abandoning the generator alternate)"""
+    return [{'a': 'enum', 'ck': c, 'ni': ni, 'mode': 'take', 'k': 1, 'end': take_end(ni + c)}
+            for ni in hits for c in range(1, ncks + 1)]
+
+
+def ops_random(rng, rules, scout, nops, nextra):
+    """stage C: a random history.  scout: {ni: (items delivered, user function calls, rule matches)} as seen by a checker that
+    is not part of the history (so that the first enumeration of a name on a checker can be a partial one)."""
+    hits = sorted(ni for ni, (ny, nc, nr) in scout.items() if nr >= 1)
+    multi = [ni for ni in hits if scout[ni][0] >= 2]
+    calls = [ni for ni in hits if scout[ni][1] >= 1] or [ni for ni in sorted(scout) if scout[ni][1] >= 1]
+    allni = sorted(scout)
+    ncks = [2]
+
+    def pick_ni():
+        x = rng.random()
+        if multi and x < 0.55:
+            return rng.choice(multi)
+        if calls and x < 0.75:
+            return rng.choice(calls)
+        if hits and x < 0.92:
+            return rng.choice(hits)
+        return rng.choice(allni)
+
+    def enum_op(depth=0):
+        ni = pick_ni()
+        ny, nc, _ = scout[ni]
+        c = rng.randint(1, ncks[0])
+        x = rng.random()
+        if x < 0.45 or depth:
+            if depth and rng.random() < 0.5:
+                return {'a': 'enum', 'ck': c, 'ni': ni, 'mode': 'full'}
+            k = rng.randint(1, max(1, ny - 1)) if rng.random() < 0.8 else ny + rng.choice([0, 1])
+            return {'a': 'enum', 'ck': c, 'ni': ni, 'mode': 'take', 'k': max(1, k), 'end': take_end(rng.randrange(3))}
+        if x < 0.70 and nc:
+            return {'a': 'enum', 'ck': c, 'ni': ni, 'mode': 'abort', 'k': rng.randint(1, nc)}
+        if x < 0.90:
+            inner = []
+            for _ in range(rng.choice([1, 1, 2])):
+                op = enum_op(depth + 1)
+                if rng.random() < 0.6:
+                    op['ni'] = ni                       # the same name once more while the first enumeration is suspended
+                if rng.random() < 0.6:
+                    op['ck'] = c                        # ... on the same object
+                inner.append(op)
+            return {'a': 'enum', 'ck': c, 'ni': ni, 'mode': 'nested', 'k': rng.randint(1, max(1, ny - 1)), 'inner': inner}
+        return {'a': 'enum', 'ck': c, 'ni': ni, 'mode': 'full'}
+
+    newat = sorted(rng.randrange(0, max(1, nops * 2 // 3)) for _ in range(nextra))
+    ops = []
+    for i in range(nops):
+        while newat and newat[0] <= i:
+            newat.pop(0)
+            ops.append({'a': 'new', 'tab': K.other_tab(rules, rng), 'via': rng.choice(['direct', 'load'])})
+            ncks[0] += 1
+            # the new checker is asked at once (its own table decides), then the older ones again
+            for ni in rng.sample(hits, min(3, len(hits))) + rng.sample(allni, min(3, len(allni))):
+                ops.append({'a': 'enum', 'ck': ncks[0], 'ni': ni, 'mode': 'full'})
+        ops.append(enum_op())
+    # every checker constructed meanwhile: a sample of names in full at the end (checkers 1 and 2: all names, r1 / r2)
+    for c in range(3, ncks[0] + 1):
+        for ni in rng.sample(hits, min(12, len(hits))) + rng.sample(allni, min(12, len(allni))):
+            ops.append({'a': 'enum', 'ck': c, 'ni': ni, 'mode': 'full'})
+    return ops
+
+
+def scout_names(saved, names):
+    """{ni: (items delivered, user function calls, rule matches)} from a checker of its own"""
+    ft = K.FnTable(K.DEFAULT_TAB)
+    ck = K.lvs().Checker.load(saved, ft.fns)
+    out = {}
+    for i, nm in enumerate(names):
+        ft.calls = 0
+        try:
+            raw = list(ck.match(K.real_name(nm)))
+            ny, nr = len(raw), len(K.decode_matches(raw)[1])
+        except Exception:  # noqa - reported where the name is asked for on the recorded checkers
+            ny = nr = 0
+        out[i + 1] = (ny, ft.calls, nr)
+    return out
 
 
 # ------------------------------------------------------------------ stage C records
@@ -149,7 +247,8 @@ def node_matches(ck, name):
 def record_schema(ctx, sid, rules, L, rng, want='m', npairs=0):
     """Build + query the real library for one schema. Returns (record|None, outcome, text)."""
     text = K.render(rules)
-    oc, ck, msg, note = K.build2(text)
+    ft = K.FnTable(K.DEFAULT_TAB)
+    oc, ck, msg, note = K.build2(text, ft.fns)
     K.recompile_violation(ctx, ctx.prop, note, text)
     if oc != 'ok':
         return None, (oc, msg), text
@@ -157,7 +256,25 @@ def record_schema(ctx, sid, rules, L, rng, want='m', npairs=0):
     names = K.names_upto(alpha, L)
     rec = {'sid': sid, 'kind': want, 'rules': rules, 'model': K.dump_model(ck.model), 'names': names,
            'text': text, 'alpha': alpha}
-    return rec, ('ok', ck), text
+    return rec, ('ok', ck, ft), text
+
+
+def stats_history(stat, h, scout):
+    """what the histories of a run exercised (vacuity of the history dimension)"""
+    seen = {}
+    for ev in h.hist:
+        ny = scout[ev['ni']][0]
+        stat['enum'] += 1
+        part = (ev['mode'] == 'take' and ev['ny'] >= ev['k'] and ny > ev['k']) or (ev['mode'] == 'abort' and ev['oc'] != 'ok')
+        stat['cut'] += ev['mode'] == 'take' and part
+        stat['fault'] += ev['mode'] == 'abort' and part
+        stat['nested'] += ev['mode'] == 'nested' and 0 < ev['k'] < ny
+        stat['again'] += seen.get((ev['ck'], ev['ni']), False)
+        seen[(ev['ck'], ev['ni'])] = seen.get((ev['ck'], ev['ni']), False) or part
+        if ev['ck'] > 2 and ev['mode'] == 'full' and h.cks[ev['ck'] - 1][1].tab != K.DEFAULT_TAB:
+            stat['tabdiff'] += len(ev['res']) != scout[ev['ni']][2]
+    stat['again'] += sum(1 for (c, ni), part in seen.items() if part and c <= 2)     # asked again for r1 / r2
+    stat['cks'] += len(h.cks) - 2
 
 
 def classify_and_report(ctx, prop, recs, verdicts, what_fn):
@@ -167,7 +284,7 @@ def classify_and_report(ctx, prop, recs, verdicts, what_fn):
             ctx.violation('%s/%s' % (prop, cls), what_fn(rec, cls, cnt, first),
                           {'kind': rec['kind'], 'rules': rec['rules'], 'text': rec['text'], 'alpha': rec['alpha'],
                            'L': max(len(n) for n in rec['names']), 'class': cls, 'first': first,
-                           'pairs': rec.get('pairs')})
+                           'pairs': rec.get('pairs'), 'ops': rec.get('ops'), 'allnames': rec.get('allnames')})
 
 
 def run(ctx):
@@ -237,19 +354,33 @@ def stage_b(ctx, procs):
         lambda: enum_run(ctx, 'trees', 1, ctx.pick(2, procs), maxnodes=ctx.pick(3, 4), tag='t')])
     bad = []
     nrej = 0
+    npart = [0]
     for it in items:
         rules = to_json(it[2])
         exp = [expset(v) for v in seq(it[3])]
         text = K.render(rules)
-        oc, ck, msg, note = K.build2(text)
+        ft1 = K.FnTable(K.DEFAULT_TAB)
+        oc, ck, msg, note = K.build2(text, ft1.fns)
         K.recompile_violation(ctx, 'C11', note, text)
         ctx.traces += 1
         if oc != 'ok':
             nrej += 1          # e.g. a name pattern that signs itself: C13 judges rejections
             continue
-        ck2 = K.reload(ck)
+        # the two checkers are long-lived: every name with a match is first asked for by a caller that stops early
+        saved = ck.save()
+        h = K.History(ck.model, saved, names)
+        h.add(ck, ft1, 'direct')
+        h.new(K.DEFAULT_TAB, 'load')
+        ck2 = h.cks[1][0]
+        ops = ops_first_partial([ni + 1 for ni, n in enumerate(names) if n and exp[ni]], 2)
+        h.run(ops)
         mism = False
-        r1s, r2s = [], []
+        for ev in h.hist:
+            ctx.evaluations += 1
+            npart[0] += ev['ny'] >= ev['k'] and len(exp[ev['ni'] - 1]) > 1
+            if ev['oc'] != 'ok' or not recset(ev['res']) <= exp[ev['ni'] - 1]:
+                mism = True
+        r1s, r2s, nms = [], [], []
         for ni, n in enumerate(names):
             if not n:
                 continue
@@ -264,55 +395,100 @@ def stage_b(ctx, procs):
                 ctx.nt('B%d/%d' % (it[1], ni))
             if recset(r1) != exp[ni] or recset(r2) != exp[ni]:
                 mism = True
+            nms.append(ni + 1); r1s.append(r1); r2s.append(r2)
+        h.finish()
         if mism:
-            bad.append((it[1], rules, text, ck, ck2))
+            bad.append((it[1], rules, text, ck, h, ops, nms, r1s, r2s))
         ctx.sample({'kind': 'B-schema', 'text': text, 'names': len(names)}, limit=2)
-    ctx.note('B: %d family schemas x %d names executed on compile_lvs + Checker.match (%d more rejected, see C13); '
-             '%d differ from Lvs!Match' % (len(items) - nrej, len(names), nrej, len(bad)))
+    ctx.note('B: %d family schemas x %d names executed on compile_lvs + Checker.match (%d more rejected, see C13), every '
+             'matching name first enumerated partially on the same objects (%d enumerations cut short before their end); '
+             '%d differ from Lvs!Match' % (len(items) - nrej, len(names), nrej, npart[0], len(bad)))
+    if items and not npart[0]:
+        raise tlc.MachineryError('B: no enumeration of the family was really cut short (history dimension vacuous)')
     if bad:                                   # let the judge attribute the differences
         recs = []
-        for idx, rules, text, ck, ck2 in bad:
-            nm = [n for n in names if n]
-            recs.append({'sid': idx, 'kind': 'm', 'rules': rules, 'model': K.dump_model(ck.model), 'names': nm,
-                         'r1': [K.run_match(ck, n)[1] for n in nm], 'r2': [K.run_match(ck2, n)[1] for n in nm],
-                         'text': text, 'alpha': ['a', 'b', 'c']})
+        for idx, rules, text, ck, h, ops, nms, r1s, r2s in bad:
+            recs.append(with_history({'sid': idx, 'kind': 'm', 'rules': rules, 'model': K.dump_model(ck.model),
+                                      'names': names, 'text': text, 'alpha': ['a', 'b', 'c']},
+                                     ctx, h, ops, nms, r1s, r2s))
         ver = K.judge(ctx, [strip(r) for r in recs], 'c11b', procs)
         classify_and_report(ctx, 'C11', recs, ver, what_m)
     # ---- trees
-    ntree = 0
+    ntree = ntab = 0
     for it in titems:
         tree = it[2]
         if not it[3]:
             raise tlc.MachineryError('sane-tree family contains an insane tree')
         if not it[6]:
             continue           # constraints on a re-bound tag: not a tree the compiler can emit
-        exp = seq(it[5])
-        L = K.lvs()
+        # two checkers loaded from the same bytes, alive together: the second one's dictionary gives $eq the meaning
+        # LvsEnum!EnumTab says; TLC enumerated the walk of the tree as read by either
+        exps = [[frozenset((r[0], frozenset(ctxdict(r[1]).items())) for r in e) for e in seq(it[k])] for k in (5, 7)]
+        wire = bytes(model_from_tree(tree).encode())
+        h = K.History(None, wire, tnames, decode=decode_nodes)
         try:
-            ck = L.Checker.load(bytes(model_from_tree(tree).encode()), K.user_fns())
+            h.new(K.DEFAULT_TAB, 'load')
+            h.new(dict(K.DEFAULT_TAB, **TREE_TAB), 'load')
         except Exception as e:  # noqa
             ctx.violation('C11/Checker.load/sane-tree/%s' % type(e).__name__,
                           'a sane tree enumerated by TLC is not loadable: %r' % e, {'kind': 'tree', 'tree': to_json(tree)})
             continue
         ntree += 1
         ctx.traces += 1
-        for ni, n in enumerate(tnames):
-            if not n:
-                continue
-            want = frozenset((r[0], frozenset(ctxdict(r[1]).items())) for r in exp[ni])
-            got = node_matches(ck, n)
+        idx = [ni + 1 for ni, n in enumerate(tnames) if n]
+        ntab += any(exps[0][ni - 1] != exps[1][ni - 1] for ni in idx)
+        # each name: first a caller that stops after one result (where there is one), then in full, on both objects
+        ops = []
+        for ni in idx:
+            for c in (1, 2):
+                if exps[c - 1][ni - 1]:
+                    ops.append({'a': 'enum', 'ck': c, 'ni': ni, 'mode': 'take', 'k': 1, 'end': take_end(ni + c)})
+            ops += [{'a': 'enum', 'ck': c, 'ni': ni, 'mode': 'full'} for c in ((1, 2) if ni % 2 else (2, 1))]
+        h.run(ops)
+        h.finish()
+        for ev in h.hist:
+            n = tnames[ev['ni'] - 1]
+            want, got = exps[ev['ck'] - 1][ev['ni'] - 1], ev['res']
             ctx.evaluations += 1
-            if want:
-                ctx.nt('T%d/%d' % (it[1], ni))
-            if got != want:
-                ctx.violation('C11/Checker.match/tree/%s' % ('extra' if got > want else 'missing' if got < want else 'differs'),
-                              'tree %d name %s: Checker.match nodes %s, LvsTree!Walk %s' % (it[1], n, sorted(got), sorted(want)),
+            if want and ev['mode'] == 'full' and ev['ck'] == 1:
+                ctx.nt('T%d/%d' % (it[1], ev['ni'] - 1))
+            whole = ev['mode'] == 'full' or ev['ny'] < ev['k']
+            if ev['oc'] != 'ok':
+                ctx.violation('C11/Checker.match/tree/%s/%s' % (ev['mode'], ev['oc']),
+                              'tree %d name %s: Checker.match raises %s' % (it[1], n, ev['oc']),
                               {'kind': 'tree', 'tree': to_json(tree), 'name': n})
-    ctx.note('B: %d TLC-enumerated sane trees x %d names executed on Checker.load + match' % (ntree, len(tnames)))
+            elif (got != want) if whole else not got <= want:
+                cmp_ = 'extra' if got > want else 'missing' if got < want else 'differs'
+                sig = 'C11/Checker.match/tree/%s' % cmp_
+                if ev['mode'] != 'full':
+                    sig = 'C11/Checker.match/tree/%s/%s' % (ev['mode'], cmp_)
+                elif ev['ck'] == 2:
+                    sig = 'C11/Checker.match/tree/second-table/%s' % cmp_
+                ctx.violation(sig, 'tree %d name %s, checker %d (%s, history: every name first taken partially, two checkers '
+                              'with different function tables): Checker.match nodes %s, LvsTree!Walk %s'
+                              % (it[1], n, ev['ck'], ev['mode'], sorted(got), sorted(want)),
+                              {'kind': 'tree', 'tree': to_json(tree), 'name': n})
+    if ntree and not ntab:
+        raise tlc.MachineryError('B: the second function table changes no walk of any enumerated tree (vacuous)')
+    ctx.note('B: %d TLC-enumerated sane trees x %d names executed on Checker.load + match, each tree by two checkers with '
+             'different function tables alive together (%d trees where the table matters), every matching name first '
+             'enumerated partially' % (ntree, len(tnames), ntab))
 
 
 def strip(rec):
-    return {k: v for k, v in rec.items() if k not in ('text', 'alpha')}
+    return {k: v for k, v in rec.items() if k not in ('text', 'alpha', 'ops', 'allnames')}
+
+
+def with_history(rec, ctx, h, ops, nms, r1s, r2s):
+    """complete a judge record: the names nms (1-based indices into h.names) with the results of their last
+    enumerations on checkers 1 and 2, the checkers, and every other enumeration of the history"""
+    pos = {ni: j + 1 for j, ni in enumerate(nms)}
+    rec['names'] = [h.names[ni - 1] for ni in nms]
+    rec['r1'], rec['r2'] = r1s, r2s
+    rec['cks'] = h.cks_json()
+    rec['hist'] = [dict(ev, ni=pos[ev['ni']]) for ev in h.judged(ctx, ctx.prop, rec['text']) if ev['ni'] in pos]
+    rec['ops'], rec['allnames'] = ops, h.names
+    return rec
 
 
 def what_m(rec, cls, cnt, first):
@@ -327,6 +503,7 @@ def stage_c(ctx, procs):
     gen = K.Gen(ctx.rng)
     recs, rejected = [], 0
     sid = 0
+    stat = dict(enum=0, cut=0, fault=0, nested=0, again=0, cks=0, tabdiff=0)
     while len(recs) < n and sid < 3 * n:
         sid += 1
         rules = gen.schema()
@@ -334,16 +511,27 @@ def stage_c(ctx, procs):
         if rec is None:
             rejected += 1          # rejections of generated schemas are C13's business
             continue
-        ck = oc[1]
-        ck2 = K.reload(ck)
+        ck, ft1 = oc[1], oc[2]
+        saved = ck.save()
         ctx.traces += 1
-        r1, r2, names = [], [], []
         # a trailing implicit digest is not part of the name that is matched: every matching name (and a few others)
         # is asked once more with a digest component appended
         plain = [nm for nm in rec['names'] if nm]
-        hitn = [nm for nm in plain if K.run_match(ck, nm)[1]]
+        sc = scout_names(saved, plain)
+        hitn = [nm for i, nm in enumerate(plain) if sc[i + 1][2]]
         extra = [nm + [K.DIGEST] for nm in hitn[:40] + ctx.rng.sample(plain, min(10, len(plain)))] + [[K.DIGEST]]
-        for nm in rec['names'] + extra:
+        allnames = rec['names'] + extra
+        scout = scout_names(saved, allnames)
+        # the history of the two long-lived checkers (direct, reloaded) and of the checkers constructed meanwhile
+        h = K.History(ck.model, saved, allnames)
+        h.add(ck, ft1, 'direct')
+        h.new(K.DEFAULT_TAB, 'load')
+        ck2 = h.cks[1][0]
+        ops = ops_random(ctx.rng, rules, scout, ctx.pick(24, 40), ctx.rng.choice([1, 1, 2]))
+        h.run(ops)
+        ctx.evaluations += len(h.hist)
+        r1, r2, nms = [], [], []
+        for ni, nm in enumerate(allnames):
             s1, a = K.run_match(ck, nm)
             s2, b = K.run_match(ck2, nm)
             ctx.evaluations += 2
@@ -353,14 +541,24 @@ def stage_c(ctx, procs):
                               'Checker.match(%r) raises %s instead of reporting the matching rules; schema\n%s'
                               % ('/' + '/'.join(nm), exc, text), {'kind': 'text', 'text': text, 'name': nm})
                 continue
-            names.append(nm); r1.append(a); r2.append(b)
+            nms.append(ni + 1); r1.append(a); r2.append(b)
             if a:
                 ctx.nt('C%d/%s' % (sid, '/'.join(nm)))
-        rec['names'], rec['r1'], rec['r2'] = names, r1, r2
+        h.finish()
+        with_history(rec, ctx, h, ops, nms, r1, r2)
+        names = rec['names']
+        stats_history(stat, h, scout)
         recs.append(rec)
         ctx.sample({'kind': 'C-schema', 'text': text, 'alphabet': rec['alpha'], 'names': len(names)}, limit=3)
     ctx.note('C: %d generated schemas compiled (%d more rejected by compile_lvs/Checker, judged by C13), '
              '%d names each up to length %d' % (len(recs), rejected, len(recs[0]['names']) if recs else 0, L))
+    ctx.note('C: histories on the long-lived checkers: %(enum)d more enumerations (%(cut)d cut short before their end, '
+             '%(fault)d aborted by a raising user function, %(nested)d suspended while others ran, %(again)d of a name whose '
+             'earlier enumeration on that object was incomplete); %(cks)d checkers constructed meanwhile with other '
+             'function tables, %(tabdiff)d of their enumerations differ from what the default table gives' % stat)
+    for k in ('cut', 'fault', 'nested', 'again', 'tabdiff'):
+        if len(recs) >= 50 and not stat[k]:
+            raise tlc.MachineryError('C: history dimension vacuous: %s = 0' % k)
     ver = K.judge(ctx, [strip(r) for r in recs], 'c11c', procs)
     classify_and_report(ctx, 'C11', recs, ver, what_m)
 
@@ -374,16 +572,26 @@ def replay(ctx, path):
         if rec is None:
             print('build failed: %s' % (oc,))
             return 1
-        ck = oc[1]
-        ck2 = K.reload(ck)
-        rec['names'] = [n for n in K.names_upto(obj['alpha'], obj['L']) if n]
-        rec['r1'] = [K.run_match(ck, n)[1] for n in rec['names']]
-        rec['r2'] = [K.run_match(ck2, n)[1] for n in rec['names']]
+        ck, ft1 = oc[1], oc[2]
+        allnames = obj.get('allnames') or [n for n in K.names_upto(obj['alpha'], obj['L']) if n]
+        h = K.History(ck.model, ck.save(), allnames)
+        h.add(ck, ft1, 'direct')
+        h.new(K.DEFAULT_TAB, 'load')
+        ck2 = h.cks[1][0]
+        h.run(obj.get('ops') or [])              # the recorded history, then every name in full on checkers 1 and 2
+        nms = [i + 1 for i, n in enumerate(allnames) if n or obj.get('ops')]
+        r1 = [K.run_match(ck, allnames[i - 1])[1] for i in nms]
+        r2 = [K.run_match(ck2, allnames[i - 1])[1] for i in nms]
+        h.finish()
+        with_history(rec, ctx, h, obj.get('ops'), nms, r1, r2)
         ver = K.judge(ctx, [strip(rec)], 'c11r', 1)
         v = ver[1]
         for cls, cnt, first in sorted(v):
             print('MISMATCH %s on %d names, first /%s' % (cls, cnt, '/'.join(rec['names'][first - 1])))
-            print('  Checker.match:', rec['r1'][first - 1])
+            print('  Checker.match (last enumeration on checker 1):', rec['r1'][first - 1])
+            for ev in rec['hist']:
+                if ev['ni'] == first:
+                    print('  history: checker %(ck)d %(mode)s k=%(k)d -> %(ny)d items, %(oc)s: %(res)s' % ev)
         print('reproduced' if v else 'not reproduced (all three agree)')
         return 1 if v else 0
     if obj.get('kind') == 'recompile':
